@@ -222,43 +222,46 @@ func c10r2(c *Check) {
 	c.Judge(accept != "" && strings.TrimSuffix(accept, " now−wait") == strings.TrimSuffix(keep, " cutoff"), "aggregator: accepting and keeping use the same relation", pos, "both strict >", fmt.Sprintf("AddOrCreate uses %q, Flush uses %q: a bucket exactly at the boundary is either flushed while it still accepts points (emitted twice) or closed without ever being flushed", accept, keep))
 	// run passes tick − Wait
 	okCut := false
-	allInstrs(run, func(in ssa.Instruction) {
-		call, ok := in.(*ssa.Call)
-		if !ok || !strings.HasSuffix(calleeName(call.Common()), "Aggregator).Flush") {
-			return
-		}
-		// arg = uint(thresh.Unix()), thresh = X.Add(-Duration(Wait)*Second)
-		found := false
-		var walk func(v ssa.Value, d int)
-		walk = func(v ssa.Value, d int) {
-			if d > 12 || v == nil {
+	// the case bodies of run may live in helper methods of the aggregator (handleTick, flushUntilWaitBefore)
+	for _, runf := range workerFuncs(c.P, run) {
+		allInstrs(runf, func(in ssa.Instruction) {
+			call, ok := in.(*ssa.Call)
+			if !ok || !strings.HasSuffix(calleeName(call.Common()), "Aggregator).Flush") {
 				return
 			}
-			if isFieldLoad(v, waitF) {
-				found = true
-				return
-			}
-			switch x := v.(type) {
-			case *ssa.Convert:
-				walk(x.X, d+1)
-			case *ssa.BinOp:
-				walk(x.X, d+1)
-				walk(x.Y, d+1)
-			case *ssa.UnOp:
-				walk(x.X, d+1)
-			case *ssa.Call:
-				for _, a := range x.Call.Args {
-					walk(a, d+1)
+			// arg = uint(thresh.Unix()), thresh = X.Add(-Duration(Wait)*Second)
+			found := false
+			var walk func(v ssa.Value, d int)
+			walk = func(v ssa.Value, d int) {
+				if d > 12 || v == nil {
+					return
+				}
+				if isFieldLoad(v, waitF) {
+					found = true
+					return
+				}
+				switch x := v.(type) {
+				case *ssa.Convert:
+					walk(x.X, d+1)
+				case *ssa.BinOp:
+					walk(x.X, d+1)
+					walk(x.Y, d+1)
+				case *ssa.UnOp:
+					walk(x.X, d+1)
+				case *ssa.Call:
+					for _, a := range x.Call.Args {
+						walk(a, d+1)
+					}
 				}
 			}
-		}
-		walk(call.Call.Args[1], 0)
-		if found {
-			okCut = true
-		} else {
-			okCut = false
-		}
-	})
+			walk(call.Call.Args[1], 0)
+			if found {
+				okCut = true
+			} else {
+				okCut = false
+			}
+		})
+	}
 	c.Judge(okCut, "aggregator.run flushes with cutoff = tick − Wait", c.AtFn(run), "the cutoff derives from the Wait field", "the cutoff handed to Flush does not depend on Wait")
 }
 
@@ -351,28 +354,30 @@ func c10r4(c *Check) {
 	intervalF := c.P.Field("aggregator", "Aggregator", "Interval")
 	ok := false
 	var at ssa.Instruction
-	allInstrs(run, func(in ssa.Instruction) {
-		call, isCall := in.(*ssa.Call)
-		if !isCall || !strings.HasSuffix(calleeName(call.Common()), "Aggregator).AddOrCreate") {
-			return
-		}
-		at = in
-		q := call.Call.Args[3]
-		tsArg := call.Call.Args[2] // msg.ts
-		// q = t - (t % Interval) with t = uint(msg.ts)
-		if sub, isSub := q.(*ssa.BinOp); isSub && sub.Op == token.SUB {
-			if rem, isRem := sub.Y.(*ssa.BinOp); isRem && rem.Op == token.REM && rem.X == sub.X && isFieldLoad(rem.Y, intervalF) {
-				if cv, isCv := sub.X.(*ssa.Convert); isCv && sameLoc(cv.X, tsArg) {
+	for _, runf := range workerFuncs(c.P, run) {
+		allInstrs(runf, func(in ssa.Instruction) {
+			call, isCall := in.(*ssa.Call)
+			if !isCall || !strings.HasSuffix(calleeName(call.Common()), "Aggregator).AddOrCreate") {
+				return
+			}
+			at = in
+			q := call.Call.Args[3]
+			tsArg := call.Call.Args[2] // msg.ts
+			// q = t - (t % Interval) with t = uint(msg.ts)
+			if sub, isSub := q.(*ssa.BinOp); isSub && sub.Op == token.SUB {
+				if rem, isRem := sub.Y.(*ssa.BinOp); isRem && rem.Op == token.REM && rem.X == sub.X && isFieldLoad(rem.Y, intervalF) {
+					if cv, isCv := sub.X.(*ssa.Convert); isCv && sameLoc(cv.X, tsArg) {
+						ok = true
+					}
+				}
+			}
+			if mul, isMul := q.(*ssa.BinOp); isMul && mul.Op == token.MUL {
+				if quo, isQuo := mul.X.(*ssa.BinOp); isQuo && quo.Op == token.QUO && isFieldLoad(quo.Y, intervalF) && isFieldLoad(mul.Y, intervalF) {
 					ok = true
 				}
 			}
-		}
-		if mul, isMul := q.(*ssa.BinOp); isMul && mul.Op == token.MUL {
-			if quo, isQuo := mul.X.(*ssa.BinOp); isQuo && quo.Op == token.QUO && isFieldLoad(quo.Y, intervalF) && isFieldLoad(mul.Y, intervalF) {
-				ok = true
-			}
-		}
-	})
+		})
+	}
 	pos := c.AtFn(run)
 	if at != nil {
 		pos = c.At(at)
